@@ -69,6 +69,7 @@ def _peptide(seq, idx):
     return lines
 
 
+TWIN = [False]  # the Debump object has just rotated a residue with the same chain and number but another insertion code
 WARM = [False]  # the Debump object already served a pass on the heavy-atom structure (as in main: debump, add hydrogens, debump)
 _WARMED = {}
 
@@ -84,6 +85,8 @@ def _setup(resname, position, neutral):
     seq = ["ALA", "ALA", "ALA"]
     idx = POSITIONS[position]
     seq[idx] = resname
+    if TWIN[0]:
+        seq[0] = resname  # becomes the residue with the same number and insertion code "A" (see below)
     bm, _ = fixtures.prepared(_peptide(seq, idx), neutraln=neutral, neutralc=neutral)
     if bm.num_missing_heavy:
         bm.repair_heavy()
@@ -110,6 +113,25 @@ def _setup(resname, position, neutral):
     bm.update_internal_bonds()
     bm.calculate_dihedral_angles()
     bm.set_reference_distance()
+    if TWIN[0]:
+        # a neighbour of the same type carries the SAME residue number and chain, told apart by its insertion code only;
+        # the Debump object has just turned every torsion of that neighbour (same pivot names) and kept the result
+        from pdb2pqr import cells as cells_mod
+        from pdb2pqr import debump
+        from pdb2pqr.config import CELL_SIZE
+
+        twin, target = bm.residues[0], bm.residues[idx]
+        twin.res_seq, twin.ins_code = target.res_seq, "A"
+        for a in twin.atoms:
+            a.res_seq, a.ins_code = target.res_seq, "A"
+        deb = debump.Debump(bm)
+        deb.cells = cells_mod.Cells(CELL_SIZE)
+        deb.cells.assign_cells(bm)
+        for k in range(len(twin.reference.dihedrals)):
+            if k < len(twin.dihedrals) and twin.dihedrals[k] is not None:
+                deb.score_dihedral_angle(twin, k)
+                deb.set_dihedral_angle(twin, k, twin.dihedrals[k] + 7.0)
+        _WARMED[id(bm)] = deb
     return bm, bm.residues[idx]
 
 
@@ -258,15 +280,17 @@ def _angle_demo(resname, position, anglenum, neutral):
     return "; ".join(changed[:3])
 
 
-def run_classification(resname, position, neutral=False, heavy_only=True, prop="C04", order=None, warm=False):
+def run_classification(resname, position, neutral=False, heavy_only=True, prop="C04", order=None, warm=False, twin=False):
     """lemma obligation for one residue at one chain position: all dihedrals."""
     ATOM_ORDER[0] = order
     WARM[0] = warm
+    TWIN[0] = twin
     try:
         return _run_classification(resname, position, neutral, heavy_only, prop)
     finally:
         ATOM_ORDER[0] = None
         WARM[0] = False
+        TWIN[0] = False
         _WARMED.clear()
 
 
@@ -769,6 +793,10 @@ def obligations(tier, prop="C04"):
     # heavy-atom pass may decide which atoms turn later
     for r in ("LYS", "HIS", "SER") if tier == "quick" else residues:
         obs.append(Obligation(f"rotation-{r}-internal-reused-debump-object", run_classification, dict(resname=r, position="internal", neutral=False, prop=prop, warm=True), kind="lemma", group="rotation"))
+    # two residues of one chain that differ in their insertion code only (antibody numbering: 52, 52A, 52B) are turned by
+    # the same Debump object one after the other
+    for r in ("LEU", "LYS") if tier == "quick" else [x for x in residues if x not in ("ALA", "GLY", "PRO")]:
+        obs.append(Obligation(f"rotation-{r}-internal-after-insertion-code-twin", run_classification, dict(resname=r, position="internal", neutral=False, prop=prop, twin=True), kind="lemma", group="rotation"))
     if prop == "C04":
         from . import c15
 
